@@ -18,6 +18,8 @@ import (
 
 func init() {
 	register("C08", "cluster-later-member-takes-over-after-a-long-peer-timeout", c08TakeOver)
+	// C01: the cluster wait is bounded slack added to the bound - after it the notification is still delivered
+	register("C01", "cluster-later-member-takes-over-after-a-long-peer-timeout", c08TakeOver)
 	register("C11", "process-restart-after-clean-stop", c11Process)
 	register("C11", "process-killed-after-periodic-snapshot", c11Process)
 }
